@@ -887,6 +887,11 @@ func (t *tree) parseExpr(prec int) ast.Node {
 			break
 		}
 		q++
+		if tok.typ == itemElvis {
+			// ?: shares the lowest level with the ternary and both associate to the
+			// right: $a ?: $b ? 1 : 2 is $a ?: ($b ? 1 : 2)
+			q = 0
+		}
 		t.deeper() // a chain of operators nests to the left
 		n = newBinaryOpNode(tok, n, t.parseExpr(q))
 	}
